@@ -251,6 +251,7 @@ type oracle struct {
 	trace      []string
 	violations int
 	fired      map[string]string // base signature -> phase in which it fired first
+	liveKind   string            // real-kill runs on a kv index: kind used for the live store's signatures
 }
 
 func newOracle(r *ev.Run, w *world, h history, info caseInfo) *oracle {
@@ -332,6 +333,9 @@ func sigKind(kind string) string {
 func (o *oracle) violation(sig, what string) {
 	o.violations++
 	kind := sigKind(o.info.Kind)
+	if o.liveKind != "" && strings.Contains(sig, "diskpacked-kv") {
+		kind = o.liveKind
+	}
 	if strings.HasPrefix(kind, "pl-") {
 		sig, kind = "power-loss/"+sig, strings.TrimPrefix(kind, "pl-")
 	}
